@@ -6,6 +6,14 @@ CLAIMED = {
              text="Theorems C08_plain_json / C08_simplified_simple / C08_simplified_normal (Props/C08.v) hold for every raw parse tree, callback mode, rename map and null value; "
                   "the model is re-validated against utils.scrub + the substitution loop on every run on thousands of captured raw results, and the raw results are checked to lie in the modelled universe",
              design="6/C08", note="Trusted: Coq kernel + vm_compute; the dump of ParseResults observations (truthiness, items(), iteration) is computed by the real engine; statement generator coverage bounds the correspondence"),
+ "C11": dict(technique="Coq proof that the recorded NULL slots (as paths) are exactly the marker positions, for every raw tree / callback mode / rename map; tied by differential execution of the model on captured raw results plus a sentinel-substitution oracle",
+             text="Theorems C11_null_is_substitution / C11_any_two_nulls (Props/C11.v): the substitution loop over the recorded slots equals replacing every marker, for every raw tree under simple_op, normal_op and a custom callback and every fmap, given duplicate-free keys and no operator/kwarg-name collision (premise evaluated on every captured raw result). "
+                  "The model is re-validated against utils.scrub + _parse on every run; the direct oracle compares parse(null=X) with substitute(parse(null=sentinel), X) for 7 values of X over the option matrix",
+             design="6/C11", note="Trusted: Coq kernel + vm_compute; ParseResults observations computed by the real engine; NULL foldings (missing/exists) happen in parse actions before scrub and are covered by the oracle only"),
+ "C12": dict(technique="Coq proofs normal_to_simple and fmap_is_rename over the scrub model (all raw trees), tied by differential execution of the model on captured raw results plus direct to_simple/rename oracles",
+             text="Theorems C12_normal_to_simple, C12_normal_shape, C12_fmap_is_rename (Props/C12.v) for every raw tree without fake call-shaped dicts (premise measured per run); model re-validated against the implementation under simple_op/normal_op/fmap on every run; "
+                  "oracle: to_simple(parse(calls=normal_op)) == parse(), normal-form shape, parse(fmap=m) == rename for single renames and swaps, crossed with null and all_columns",
+             design="6/C12", note="Trusted: Coq kernel + vm_compute; the reading that to_simple puts the operator key last (dict equality is order-insensitive in Python)"),
 }
 PENDING_REASON = "check not built yet in this session (planned, see DESIGN.md section 8); not claimed until its theorem and tie exist"
 ALL = ["C%02d" % i for i in range(1, 21)]
